@@ -354,7 +354,7 @@ def c19(tier, seed):
     return res.finish()
 
 
-SPARSE_PRODUCT = []
+SPARSE_PRODUCT = [("productsparse", ["-hist", "1", "-steps", "25"])]
 
 
 def c03(tier, seed):
@@ -365,8 +365,10 @@ def c03(tier, seed):
     path, g, n = core.gen_transitions("DsGen_kvpage.cfg", {} if q else {"MaxLen": "= 5"}, timeout=1800)
     res.add_mc("DsGen_kvpage", g)
     res.extra["emitted_transitions"] = n
-    shards = [["@replay", "-in", path, "-mode", "tx", "-idx", m, "-batch", "8", "-seed", str(seed)] for m in ("keyval", "keyonly")] + SPARSE_PAGE(path, seed)
-    for mode in ("keyval", "keyonly"):
+    shards = [["@replay", "-in", path, "-mode", "tx", "-idx", m, "-batch", "8", "-seed", str(seed)] for m in ("keyval", "keyonly")]
+    # sparse mode: every query in the thorough tier, a third of them (dealt round-robin) in the quick tier
+    shards += SPARSE_PAGE(split_file(path, 3)[seed % 3] if q else path, seed)
+    for mode in ("keyval", "keyonly", "sparse"):
         shards += fam_shards([("page", ["-mode", mode])], seed, 1 if q else 12, 2 if q else 3, 30 if q else 80)
     # paging on the exported B+ tree itself (several leaves and levels; offsets up to beyond the key count)
     shards += fam_shards([("bptree", [])], seed + 1, 1 if q else 10, 1 if q else 2, 10 if q else 40)
@@ -383,7 +385,8 @@ def c03(tier, seed):
 
 
 def SPARSE_PAGE(path, seed):
-    return []
+    # sparse mode with 128-byte segments: the keys of a state are spread over one to three segments
+    return [["@replay", "-in", path, "-mode", "tx", "-idx", "sparse", "-seg", "128", "-batch", "8", "-seed", str(seed)]]
 
 
 def c20(tier, seed):
@@ -436,15 +439,17 @@ def c02(tier, seed):
     shards = []
     for rw in ("fileio", "mmap"):
         shards += fam_shards([("kv", ["-mode", "sparse", "-rw", rw])], seed, 2 if q else 20, 3 if q else 4, 40 if q else 100)
-    rs = core.drive_and_validate(res, shards, core.dev_set(), "a sparse-mode Get or GetAll (or a reopen) returned something else than the live pairs of the bucket",
+    shards += fam_shards([("page", ["-mode", "sparse"])], seed, 1 if q else 10, 2, 30 if q else 60)
+    rs = core.drive_and_validate(res, shards, core.dev_set(), "a sparse-mode read (or a reopen) returned something else than the live pairs of the bucket",
                                  "single-bucket Put/PutWithTimestamp/Delete histories in HintBPTSparseIdxMode with 128-512 byte segments (most keys in sealed segments), Close/Open every ~12 transactions")
     res.cov["samples"] = core.sample_events(rs[0]["trace"], 6, ops={"get", "obs", "open"})
     ops = res.extra.get("events_by_op", {})
     res.cov["distinct_nontrivial"] = ops.get("get", 0) + ops.get("obs", 0)
-    res.cov["rule"] = ("non-trivial = Get calls and full observations (GetAll of the bucket), each compared exactly by TLC with the ordered-map model; "
-                       "RangeScan/PrefixScan results in sparse mode are recorded but, under the known finding F-C02-1, not constrained")
-    res.assumptions += ["single-bucket histories with unambiguous bucket+key concatenations (the statement's scope)",
-                        "RangeScan and PrefixScan are not judged in sparse mode (known finding F-C02-1: they miss live keys of sealed segments and can return superseded values)"]
+    ops = res.extra.get("events_by_op", {})
+    res.cov["distinct_nontrivial"] = sum(ops.get(k, 0) for k in ("get", "getall", "range", "pscan", "psscan", "obs"))
+    res.cov["rule"] = ("non-trivial = Get / GetAll / RangeScan / PrefixScan / PrefixSearchScan calls and full observations, each compared exactly by TLC "
+                       "with the ordered-map model (KVSpec), as in C01")
+    res.assumptions += ["single-bucket histories with unambiguous bucket+key concatenations (the statement's scope)"]
     return res.finish()
 
 
